@@ -440,12 +440,19 @@ def assemble (u : URL) (auth path qs frag : Text) : Text :=
   (if qs ≠ [] then 63 :: qs else []) ++
   (if frag ≠ [] then 35 :: frag else [])
 
+/-- `first.replace(':', '%3A') + sep + rest` with `first, sep, rest = path.partition('/')` -/
+def escColonFirst (p : Text) : Text :=
+  (before 47 p).flatMap (fun c => if c = 58 then [37, 51, 65] else [c]) ++ p.dropWhile (neq 47)
+
 /-- `URL.to_text(full_quote)` -/
 def toText (env : Env) (full : Bool) (u : URL) : Except Err Text :=
   match authority env full u with
   | .error e => .error e
   | .ok auth =>
-    .ok (assemble u auth (pathText env full u.pathParts) (queryText env full u.query)
+    .ok (assemble u auth
+          (if u.scheme = [] ∧ auth = [] then escColonFirst (pathText env full u.pathParts)
+           else pathText env full u.pathParts)
+          (queryText env full u.query)
           (quotePart .fragment env.nfc full u.fragment))
 
 /-! ## the loop of find_all_links (the regex matches are given) -/
